@@ -27,13 +27,14 @@ type RuleOp struct {
 	Kind string `json:"kind"` // PDR FAR QER URR BAR
 	ID   uint32 `json:"id"`
 	// PDR
-	Prec  uint32   `json:"prec,omitempty"`
-	SrcIf uint8    `json:"src_if,omitempty"`
-	UEIP  string   `json:"ueip,omitempty"`
-	FAR   uint32   `json:"far,omitempty"`
-	QERs  []uint32 `json:"qers,omitempty"`
-	URRs  []uint32 `json:"urrs,omitempty"`
-	OHR   bool     `json:"ohr,omitempty"`
+	Prec   uint32   `json:"prec,omitempty"`
+	SrcIf  uint8    `json:"src_if,omitempty"`
+	UEIP   string   `json:"ueip,omitempty"`
+	UEForm int      `json:"ue_form,omitempty"` // with UEIP: 0 IPv4 address, 1 IPv6 address only, 2 CHV4 (no address in the IE)
+	FAR    uint32   `json:"far,omitempty"`
+	QERs   []uint32 `json:"qers,omitempty"`
+	URRs   []uint32 `json:"urrs,omitempty"`
+	OHR    bool     `json:"ohr,omitempty"`
 	// FAR
 	Action    uint16 `json:"action,omitempty"`
 	HasAction bool   `json:"has_action,omitempty"`
@@ -131,7 +132,16 @@ func (r RuleOp) ie() *ie.IE {
 			if r.Verb == "create" || r.UEIP != "" {
 				pdi := []*ie.IE{ie.NewSourceInterface(r.SrcIf)}
 				if r.UEIP != "" {
-					pdi = append(pdi, ie.NewUEIPAddress(2, r.UEIP, "", 0, 0))
+					switch r.UEForm {
+					case 1:
+						// an IPv6-only UE (the IE carries no IPv4 address)
+						pdi = append(pdi, ie.NewUEIPAddress(1, "", "2001:db8:60::1", 0, 0))
+					case 2:
+						// CHV4: the UP function is asked to choose the IPv4 address, the IE carries none
+						pdi = append(pdi, ie.New(ie.UEIPAddress, []byte{0x10}))
+					default:
+						pdi = append(pdi, ie.NewUEIPAddress(2, r.UEIP, "", 0, 0))
+					}
 				}
 				cs = append(cs, ie.NewPDI(pdi...))
 			}
